@@ -592,8 +592,11 @@ impl Model {
             }
             Op::Pop => self.pop_frame(),
             Op::LcCollectOpen => {
-                // frames: [.., Scope(collector), Local(l)] -> collect first, then drop the local
-                let top = self.threads[t].frames.pop().unwrap();
+                // frames: [.., Scope(collector), Local.., Local] -> collect first, then drop the
+                // local spans (inert: their line is gone and no other scope is registered)
+                while let Some(Frame::Local { .. }) = self.threads[t].frames.last() {
+                    self.threads[t].frames.pop();
+                }
                 let sc = self.threads[t].frames.pop().unwrap();
                 if let Frame::Scope { line: Some(li) } = sc {
                     self.lines[li].close_op = Some(opi);
@@ -603,7 +606,6 @@ impl Model {
                     // spans still open stay open in the model (exit_op None): closed at collect time
                     self.lines[li].open.clear();
                 }
-                let _ = top; // dropping the local span afterwards is inert (no line)
             }
             Op::PushSet { set, parents } => {
                 if let Some(Some(li)) = self.sets.get(set).cloned() {
@@ -891,6 +893,31 @@ impl Model {
         self.cur_thread = t;
         self.push_info();
         self.begin_call(a);
+    }
+
+    /// whether thread t's frames end with a registered local collector followed by one or more
+    /// local spans, with no other registered scope below (the shape LcCollectOpen needs)
+    pub fn can_collect_open(&self, t: usize) -> bool {
+        let f = &self.threads[t].frames;
+        let mut i = f.len();
+        let mut locals = 0;
+        while i > 0 {
+            match &f[i - 1] {
+                Frame::Local { .. } => {
+                    locals += 1;
+                    i -= 1;
+                }
+                _ => break,
+            }
+        }
+        if locals == 0 || i == 0 {
+            return false;
+        }
+        let is_collector = match &f[i - 1] {
+            Frame::Scope { line: Some(li) } => matches!(self.lines[*li].kind, LineKind::Collector(_)),
+            _ => false,
+        };
+        is_collector && !f[..i - 1].iter().any(|x| matches!(x, Frame::Scope { line: Some(_) }))
     }
 
     // ---- queries used by the generator ----
